@@ -6,6 +6,8 @@ mod c06;
 mod c07;
 mod errs;
 mod pump;
+mod tyseed;
+mod e2e;
 mod yamlgen;
 
 pub struct Args {
@@ -36,6 +38,7 @@ fn main() {
         ("c06", m) => c06::run(m, &a),
         ("c07", m) => c07::run(m, &a),
         ("pump", m) => pump::run(m, &a),
+        ("e2e", m) => e2e::run(m, &a),
         _ => { eprintln!("unknown area/mode"); 2 }
     };
     std::process::exit(code);
